@@ -15,6 +15,7 @@ import time
 from spverif.core.ctx import Ctx, finish, VERIF_ROOT
 from spverif.core import repo as repo_mod
 
+SUITE_PROPS = {"C01", "C02", "C03", "C04", "C05", "C06", "C07", "C08", "C10", "C11", "C14", "C15", "C20"}   # properties with online contracts
 SHARD_TIMEOUT_S = 3000       # generous wall-clock watchdog: firing => inconclusive
 QUICK_TIMEOUT_S = 900
 
@@ -110,6 +111,9 @@ def main(argv=None) -> int:
                     ctx.merge(json.load(f))
         finally:
             shutil.rmtree(tmp, ignore_errors=True)
+    if prop in SUITE_PROPS and os.environ.get("SPV_NO_SUITE") != "1":
+        from spverif.core.suite import run_suite_under_contracts
+        run_suite_under_contracts(ctx)
     concl = getattr(mod, "conclude", None)
     if concl is not None:
         concl(ctx)
